@@ -36,6 +36,8 @@ BRACE_NUM_FEATURE = r"\{[^{}]*\d{19,}"
 BRACE_SEQ_FEATURE = r"\{[-+]?(\d+|[A-Za-z])\.\.[-+]?(\d+|[A-Za-z])\.\.[-+]?\d+\}"
 HEREDOC_FEATURE = r"<<"
 KNOWN_PANICS = [
+    ("array_literal_index_overflow", r"brush-core/src/variables\.rs$", r"add with overflow", r"\[\s*18446744073709551615\s*\]="),
+    ("tilde_dirstack_index_overflow", r"brush-parser/src/word\.rs$", r"ParseIntError", r"~[-+]?\d{20,}"),
     ("backquote_escape_span_boundary", r"brush-interactive/src/highlighting\.rs$", r"char boundary", r"`[^`]*\\"),
 ]
 HANG_EMPTY_TAG = re.compile(r"<<-?(''|\"\")?[ \t]+\Z")
@@ -53,7 +55,15 @@ def deep_nest(text):
     for m in _REPEAT.finditer(text):
         if _OPENER.search(m.group(1)):
             return True
-    return False
+    # mixed nests: eight or more brackets open at once
+    depth = best = 0
+    for ch in text:
+        if ch in "([{":
+            depth += 1
+            best = max(best, depth)
+        elif ch in ")]}" and depth:
+            depth -= 1
+    return best >= 8
 
 
 EXP_STAGES = ("program", "text:brace", "token:brace", "text:word", "token:word", "token:arithmetic", "text:arithmetic", "token:parameter",
@@ -136,9 +146,9 @@ def _run_vh_limited(lines, timeout):
     data = ("\n".join(lines) + "\n").encode("utf-8")
     p = subprocess.run([os.path.join(lib.BIN, BIN)], input=data, stdout=subprocess.PIPE, stderr=subprocess.PIPE,
                        timeout=timeout, env=e, preexec_fn=limits)
-    out = p.stdout.decode("utf-8", "replace").split("\n")
-    if out and out[-1] == "":
-        out.pop()
+    # response lines carry a marker; anything else on stdout is stray output of the code under test
+    mark = "@@C01@@ "
+    out = [l.split(mark, 1)[1] for l in p.stdout.decode("utf-8", "replace").split("\n") if mark in l]
     return p.returncode, out, p.stderr.decode("utf-8", "replace")
 
 
@@ -490,7 +500,14 @@ OTHER_RECURSION = [
     ("chain_1000", "for k in {0..999}; do eval \"v$k=v$((k+1))\"; done; v1000=7; echo $((v0))"),
     ("chain_1100", "for k in {0..1099}; do eval \"v$k=v$((k+1))\"; done; v1100=7; echo $((v0)); echo $?"),
     ("chain_sub_600", "for k in {0..599}; do eval \"v$k='a[v$((k+1))]'\"; done; v600=0; a[0]=7; echo $((v0)); echo $?"),
+    ("ps4_cmdsub", "PS4='$(echo x) '; set -x; echo hi"), ("ps4_arith", "PS4='$((1+1))> '; set -x; echo hi"), ("ps4_func", "p() { echo q; }; PS4='$(p) '; set -x; echo hi; p"),
+    ("prompt_command_subst", "x='$(echo y)'; echo \"${x@P}\""),
     ("cnf_handler", "command_not_found_handle() { echo h; return 3; }; nosuchcmd; echo $?"),
+]
+
+
+RECURSION_KNOWN = [
+    ("xtrace_ps4_command_substitution_recursion", r"PS4=[^\n]*(\$\(|`)[\s\S]*set -x"),
 ]
 
 
@@ -540,6 +557,10 @@ def recursion_stage(ctx):
             if o is not None and o["how"] != "status":
                 ctx.bucket("recursion_unbounded_in_bash_too")
                 continue
+            cl = next((c for c, fre in RECURSION_KNOWN if re.search(fre, script, re.S)), None)
+            if cl:
+                ctx.known_or_violation(cl, "brush does not end in a status (%s); bash ends with status %s" % (b["how"], o["rc"] if o else "?"), case)
+                continue
             if nviol < 10:
                 nviol += 1
                 ctx.violation("brush does not end in a status (%s) on a bounded recursion shape; bash ends with status %s"
@@ -561,6 +582,280 @@ def recursion_stage(ctx):
                 case["brush_out"] = bout[:100]
                 ctx.violation("evaluator model and brush disagree on a self-referential arithmetic input", case, kind="correspondence")
     ctx.sample({"recursion_script": cases[4][1], "model": preds[4], "brush": res[4][0]["how"]})
+
+
+# ---------------------------------------------------------------------------------------------
+# 2c. builtin arguments: option values, patterns, formats and indices handed to builtins, drawn from
+#     small adversarial alphabets (in-process; output discarded). Any panic / abort / hang is the violation.
+
+def sq(t):
+    return "'" + t.replace("'", "'\\''") + "'"
+
+
+X_ALPHA = ["&", "\\&", "!", "*", "?", "a", "\u00e9", "\u65e5"]
+X_WORDS = ["", "a", "ab", "\u00e9", "\u00e9\u00e9", "\U0001f600", "&"]
+ADV_STR = ["", "a", "\u00e9", "&", "$(echo x)", "`echo x`", "'", '"', "\\", "%s", "-", "\u65e5\u672c", "a b", "*", "$x", "\U0001f600"]
+WORDLISTS = ["a b", "'a b' c", "$(echo x y)", "a\tb\nc", "$x", "\"q\" 'r'", "a:b", "", "*", "${x:1}", "$((1/0))", "\u00e9 \u65e5 \u00e9\u00e9", "& \\&",
+             "alpha beta", "a'b", "a\"b", "`echo q`", "$(", "${"]
+GLOBS = ["*", "?", "[a-z]*", "**", "[", "!(x)", "@(a|b)", "", "\u00e9*", "*/", "~", "{a,b}"]
+ACTIONS = ["alias", "arrayvar", "binding", "builtin", "command", "directory", "disabled", "enabled", "export", "file", "function", "group",
+           "helptopic", "hostname", "job", "keyword", "running", "service", "setopt", "shopt", "signal", "stopped", "user", "variable", "nosuch"]
+COMP_OPTS = ["bashdefault", "default", "dirnames", "filenames", "noquote", "nosort", "nospace", "plusdirs", "nosuch"]
+COMP_FUNCS = ("f_ok() { COMPREPLY=(alpha beta '\u00e9\u00e9' 'a b'); }; f_fail() { return 1; }; f_unset() { unset COMPREPLY; }; f_124() { return 124; }; "
+              "f_scalar() { COMPREPLY=x; }; f_assoc() { unset COMPREPLY; declare -gA COMPREPLY=([k]=v); }; f_opt() { compopt -o nospace +o filenames; COMPREPLY=(a); }; "
+              "f_ro() { readonly COMPREPLY; }; f_big() { COMPREPLY=({1..2000}); }; f_rec() { ((depth++ < 4)) && compgen -F f_rec -- x; COMPREPLY=(r$depth); }; "
+              "f_vars() { COMPREPLY=(\"$COMP_LINE\" \"$COMP_POINT\" \"${COMP_WORDS[@]}\" \"$COMP_CWORD\" \"$1\" \"$2\" \"$3\"); }; "
+              "f_edit() { COMP_WORDS=(); COMP_CWORD=99; COMP_POINT=-1; COMPREPLY=(\"${COMP_WORDS[COMP_CWORD]}\"); }; f_exit() { exit 3; }; "
+              "f_empty() { COMPREPLY=(); }; f_spec() { complete -r; COMPREPLY=(z); }; x=abc")
+FUNC_NAMES = ["f_ok", "f_fail", "f_unset", "f_124", "f_scalar", "f_assoc", "f_opt", "f_ro", "f_big", "f_rec", "f_vars", "f_edit", "f_exit", "f_empty", "f_spec", "nosuchfunc"]
+COMP_CMDS = ["echo x", "false", "nosuchcmd", "echo \"$COMP_LINE\"", "printf 'a\\nb\\n'", "echo '\u00e9 \u65e5'", ""]
+COMPL_LINES = ["mycmd ", "mycmd a", "mycmd \u00e9", "mycmd \u00e9\u00e9 x", "mycmd \U0001f600", "mycmd 'a", "mycmd \"\u00e9", "mycmd $x", "mycmd a b c", "mycmd  ",
+               "", " ", "mycmd &", "mycmd \u00e9|", "\u00e9", "mycmd ~", "mycmd a/", "mycmd \u65e5\u672c \u00e9", "other \u00e9", "mycmd -", "mycmd a\\ b", "mycmd $(", "mycmd ${x"]
+NUMS = ["0", "1", "-1", "2", "127", "128", "255", "256", "32767", "65536", "2147483647", "2147483648", "4294967295", "4294967296", "9223372036854775807",
+        "9223372036854775808", "18446744073709551615", "18446744073709551616", "-9223372036854775808", "-9223372036854775809", "99999999999999999999",
+        "", "a", "1a", "0x10", "1.5", "+1", " 1", "\u00e9", "-0", "007", "1e3"]
+# numbers that are used as an amount of work (widths, repeat counts): small ones, and ones that no implementation can honour
+AMOUNTS = ["0", "1", "-1", "5", "-5", "100", "4096", "4294967296", "9223372036854775807", "9223372036854775808", "-9223372036854775808", "99999999999999999999", "", "a", "1.5", "\u00e9"]
+PRINTF_FORMATS = ["%d", "%5d", "%-5d|", "%05d", "%+d", "% d", "%'d", "%x", "%#x", "%#o", "%X", "%u", "%i", "%c", "%s", "%5s|", "%-5s|", "%.2s", "%b", "%q", "%Q", "%e", "%g", "%a", "%f",
+                  "%.3f", "%10.3f", "%ld", "%lld", "%hhd", "%hd", "%zd", "%jd", "%Lf", "%n", "%%", "%", "%-", "%.", "%5", "%l", "%(%Y)T", "%(%Q)T", "%(", "%(%Y", "%(%s)T", "%()T",
+                  "%1$d", "%2$s %1$s", "%1$*2$d", "%0$d", "%99999999999$d", "\\x", "\\x4", "\\x41", "\\u", "\\u00e9", "\\U0010FFFF", "\\U00110000", "\\UD800", "\\777", "\\400", "\\0",
+                  "\\c", "\\", "%s\\c%s", "%d %d %d", "%s %s %s %s", "\u00e9%s\u65e5", "%\u00e9", "%5\u00e9", "%v", "%C", "%S", "%p", "%m", "%I", "%z"]
+STAR_FORMATS = ["%*d", "%-*d|", "%.*d", "%*.*d", "%*s|", "%.*s|", "%*c", "%*x", "%0*d", "%.*f", "%*.*f", "%*b", "%*q"]
+TEST_UN = ["-a", "-b", "-c", "-d", "-e", "-f", "-g", "-h", "-k", "-n", "-p", "-r", "-s", "-t", "-u", "-w", "-x", "-z", "-G", "-L", "-N", "-O", "-S", "-v", "-R", "-o", "!"]
+TEST_BIN = ["=", "==", "!=", "<", ">", "-eq", "-ne", "-lt", "-le", "-gt", "-ge", "-nt", "-ot", "-ef", "-a", "-o", "=~"]
+TEST_OPS = ["", "a", "1", "-1", "9223372036854775808", "\u00e9", "(", ")", "!", "-a", "x[0]", "arr[\u00e9]", "arr[99999999999999999999]", "/", ".", "-z", "0x10", " 1 "]
+
+
+def x_filters(maxlen):
+    import itertools
+    out = [""]
+    for k in range(1, maxlen + 1):
+        out += ["".join(t) for t in itertools.product(X_ALPHA, repeat=k)]
+    return out
+
+
+def builtin_cases(ctx):
+    """(bucket, op, fields). Seed-independent core + seeded random combinations."""
+    rng = ctx.rng
+    cs = []
+
+    def run(bucket, script, interactive=False):
+        # one case per line (a fatal expansion error in one line would hide the lines after it); lines that
+        # only define functions / set options stay in front of each
+        lines = script.split("\n")
+        pre = [l for l in lines if ("() {" in l and not l.lstrip().startswith("compgen")) and len(lines) > 1 and l is lines[0]]
+        body = [l for l in lines if l not in pre]
+        if bucket.startswith("compgen_X") or len(body) <= 1:
+            cs.append((bucket, "RUNI" if interactive else "RUN", [script]))
+            return
+        for l in body:
+            cs.append((bucket, "RUNI" if interactive else "RUN", ["\n".join(pre + [l])]))
+
+    # --- compgen -X: every filter up to length 3 (quick) / 4 (thorough) x every word, one script per filter
+    filters = x_filters(ctx.size(3, 4))
+    if ctx.quick:
+        filters += ["".join(rng.choice(X_ALPHA) for _ in range(4)) for _ in range(400)]
+    for flt in filters:
+        lines = ["compgen -W 'alpha beta \u00e9\u00e9 ab a &' -X %s -- %s" % (sq(flt), sq(w)) for w in X_WORDS]
+        run("compgen_X", "\n".join(lines))
+    # --- compgen with the other options
+    base_w = "-W 'alpha beta \u00e9\u00e9 ab'"
+    for v in ADV_STR:
+        for w in ("", "a", "\u00e9"):
+            run("compgen_PS", "compgen -P %s %s -- %s\ncompgen -S %s %s -- %s\ncompgen -P %s -S %s -A variable -- %s" % (sq(v), base_w, sq(w), sq(v), base_w, sq(w), sq(v), sq(v), sq(w)))
+    for wl in WORDLISTS:
+        for w in ("", "a", "\u00e9", "&"):
+            run("compgen_W", "x=abc; IFS=$' \\t\\n'; compgen -W %s -- %s\nIFS=:; compgen -W %s -- %s\nIFS=; compgen -W %s -- %s" % (sq(wl), sq(w), sq(wl), sq(w), sq(wl), sq(w)))
+    for g in GLOBS:
+        for w in ("", "a", "\u00e9"):
+            run("compgen_G", "shopt -s extglob; compgen -G %s -- %s\ncompgen -G %s -X %s -- %s" % (sq(g), sq(w), sq(g), sq(w or "*"), sq(w)))
+    for a in ACTIONS:
+        run("compgen_A", "compgen -A %s -- ''\ncompgen -A %s -- a\ncompgen -A %s -X '&*' -P '<' -S '>' -- \u00e9" % (a, a, a))
+    for o in COMP_OPTS:
+        run("compgen_o", "compgen -o %s %s -- a\ncompgen -o %s -f -- ''\ncompgen -o %s -d -- \u00e9" % (o, base_w, o, o))
+    for fn in FUNC_NAMES:
+        for w in ("", "a", "\u00e9"):
+            run("compgen_F", COMP_FUNCS + "; depth=0; compgen -F %s -- %s\ndepth=0; compgen -F %s %s -X '&' -- %s" % (fn, sq(w), fn, base_w, sq(w)))
+    for c in COMP_CMDS:
+        run("compgen_C", "compgen -C %s -- a\ncompgen -C %s -X '!&*' -- \u00e9" % (sq(c), sq(c)))
+    for flag in ["-a", "-b", "-c", "-d", "-e", "-f", "-g", "-j", "-k", "-s", "-u", "-v", "-abcdefgjksuv", "-E", "-D", "-I", "-r", "-p", "--", "-z", "-o", "-A", "-W", "-X", "-P", "-F"]:
+        run("compgen_flag", "compgen %s -- a\ncompgen %s\ncomplete %s mycmd\ncomplete %s\ncomplete -p mycmd" % (flag, flag, flag, flag))
+    # --- complete + completion at a cursor
+    specs = []
+    for flt in ["&&", "&", "!&*", "\\&", "*", "&&&&", "\u00e9&", "!&", "?&?"]:
+        specs.append("complete -W 'alpha beta \u00e9\u00e9 ab a &' -X %s mycmd" % sq(flt))
+    for v in ADV_STR[:10]:
+        specs.append("complete %s -P %s -S %s mycmd" % (base_w, sq(v), sq(v)))
+    for fn in FUNC_NAMES:
+        specs.append(COMP_FUNCS + "; depth=0; complete -F %s mycmd" % fn)
+        specs.append(COMP_FUNCS + "; depth=0; complete -o nospace -o filenames -F %s -X '&' -P p mycmd" % fn)
+    for c in COMP_CMDS:
+        specs.append("complete -C %s mycmd" % sq(c))
+    for o in COMP_OPTS:
+        specs.append("complete -o %s %s mycmd" % (o, base_w))
+    for g in GLOBS[:8]:
+        specs.append("shopt -s extglob; complete -G %s mycmd" % sq(g))
+    for a in ("variable", "function", "builtin", "alias", "file", "directory", "command", "user", "signal"):
+        specs.append("complete -A %s -X '&&' mycmd" % a)
+    specs += ["complete -D %s" % base_w, "complete -E %s" % base_w, "complete -I %s -X '&&'" % base_w, "complete -D -F f_124; f_124() { return 124; }",
+              "complete %s -X '&&' '\u00e9'" % base_w, "complete %s ''" % base_w, "complete -r", "complete %s mycmd; complete -r mycmd" % base_w,
+              "alias mycmd='other x'; complete %s -X '&&' other" % base_w]
+    lines = COMPL_LINES if not ctx.quick else COMPL_LINES
+    for i, sp in enumerate(specs):
+        for ln in lines:
+            if ctx.quick and (i + len(ln)) % 3 and not sp.startswith("complete -W"):
+                continue
+            cs.append(("complete_cursor", "COMPL2", [sp, ln]))
+    for sp in specs[:12] + specs[-6:]:
+        for ln in ("mycmd \u00e9", "mycmd \u00e9\u00e9 x", "mycmd \U0001f600", "\u00e9", "mycmd \u65e5\u672c \u00e9"):
+            cs.append(("complete_cursor_bytes", "COMPL2B", [sp, ln]))
+    # --- printf
+    for f in PRINTF_FORMATS:
+        run("printf", "printf %s\nprintf %s 1 a\nprintf %s 9223372036854775808 -1\nprintf %s \u00e9 '' 1.5\nprintf -v v %s 7; printf -v 'arr[2]' %s 7" % (sq(f), sq(f), sq(f), sq(f), sq(f), sq(f)))
+    for f in STAR_FORMATS:
+        for a in AMOUNTS:
+            run("printf_star", "printf %s %s 7\nprintf %s %s %s 7\nprintf %s %s" % (sq(f), sq(a), sq(f), sq(a), sq(a), sq(f), sq(a)))
+    for n in NUMS:
+        run("printf_num", "printf '%%d %%u %%x %%o %%c %%e %%s\\n' %s %s %s %s %s %s %s\nprintf '%%(%%Y-%%m-%%d)T\\n' %s\nprintf '%%.%sd|%%%sd\\n' 1 1" % ((sq(n),) * 8 + (n if n.isdigit() and len(n) < 5 else "3", n if n.isdigit() and len(n) < 5 else "3")))
+    # --- read / mapfile / getopts
+    for n in NUMS:
+        q = sq(n)
+        run("read", "read -n %s v <<< 'a\u00e9\u65e5b c'\nread -N %s v <<< 'a\u00e9\u65e5b c'\nread -t %s v <<< abc\nread -u %s v\nread -n %s -d \u00e9 -r -a arr <<< 'a \u00e9 b'" % (q, q, q, q, q))
+        run("mapfile", "cb() { :; }; mapfile -s %s arr <<< $'a\\nb\\nc'\nmapfile -n %s arr <<< $'a\\nb\\nc'\nmapfile -O %s arr <<< $'a\\nb'\nmapfile -C cb -c %s arr <<< $'a\\nb\\nc'\nmapfile -u %s arr\nmapfile -t -d %s arr <<< $'a\\nb'" % (q, q, q, q, q, q))
+        run("shift_etc", "set -- a b c; shift %s; echo $#\npushd +%s; pushd -%s; popd +%s; popd -%s; dirs +%s; dirs -%s\ncaller %s\nwait %s\nwait %%%s; jobs %%%s; fg %%%s; bg %%%s; disown %%%s\nkill -l %s\ntrap '' %s; trap - %s; trap -p\nreturn %s" % ((q,) + (n,) * 6 + (q, q) + (n,) * 5 + (q, q, q, q)))
+        run("history_fc", "history %s\nhistory -d %s\nhistory -d %s-%s\nfc -l %s\nfc -l %s %s\nfc -l -%s\nhistory -s x; history -p %s" % (q, q, n, n, q, q, q, n, q), interactive=True)
+        run("param_num", "set -- a b c; echo \"${%s}\" \"$%s\" \"${@:%s}\" \"${*:%s:%s}\" \"${!%s}\"\ndeclare -i iv=%s; echo $iv\narr=(1 2 3); echo \"${arr[%s]}\" \"${arr[@]:%s}\"; arr[%s]=x; unset 'arr[%s]'\nb=([%s]=x y); declare -a c=([%s]=x y)\necho ~+%s ~-%s ~%s" % ((n or "1", n or "1") + (n or "0",) * 4 + (q,) + (n or "0",) * 6 + (n.strip(),) * 3))
+    for tv in ["0", "0.0", "0.5", "1e-9", "1e3", "1e30", "1e400", "inf", "-inf", "nan", "-0.0", "-1", "18446744073709551616", "9223372036854775807.5", ".", "1.", ".5", "0x1p3", "\u00e9", ""]:
+        run("read_t", "read -t %s v <<< abc\nread -t %s -n 2 v <<< abc\nread -t %s v < /dev/null" % (sq(tv), sq(tv), sq(tv)))
+    for d in ["", "a", "\u00e9", "ab", "\\", "\u65e5", "\n", "\t", " "]:
+        run("read_d", "read -d %s v <<< 'xa\u00e9\u65e5b'\nread -d %s -n 3 v <<< '\u00e9\u00e9\u00e9\u00e9'\nmapfile -d %s arr <<< 'xa\u00e9\u65e5b'\nIFS=%s read -r a b c <<< 'xa\u00e9\u65e5b'" % (sq(d), sq(d), sq(d), sq(d)))
+    for ostr in ["", ":", "a", "a:", ":a:", "::", "a::", "\u00e9", "-", "?", ":?", "ab:c", "a:\u00e9:", " ", "$"]:
+        for args in ["-a", "-ab", "-b", "--", "-", "-\u00e9", "-a -b x", "", "-a\u00e9", "x -a", "-aaaa"]:
+            run("getopts", "\n".join("OPTIND=%s; getopts %s o %s; echo $o $OPTARG $OPTIND; getopts %s o %s" % (n, sq(ostr), args, sq(ostr), args)
+                                     for n in ("1", "0", "2", "3", "99", "-1", "9223372036854775807", "99999999999999999999", "a", "")))
+    # --- test / [ / [[
+    for u in TEST_UN:
+        run("test", "\n".join("test %s %s; [ %s %s ]; [ ! %s %s ]; [[ %s %s ]]" % ((u, sq(o)) * 4) for o in TEST_OPS))
+    for b in TEST_BIN:
+        run("test", "\n".join("test %s %s %s; [ %s %s %s ]; [ %s %s %s -a %s %s %s ]" % ((sq(x), b, sq(y)) * 4) for x in TEST_OPS[:9] for y in TEST_OPS[:6]))
+    run("test", "test; [ ]; [ ; test '('; test '(' ')'; test ! ; test ! ! ! a; test '(' a ')'; test '(' '(' a ')' ')'; [ a -a ]; [ -a -a -a ]; [ '(' = ')' ]; [ ! = ! ]; test -t; test -t 99999999999999999999")
+    for _ in range(ctx.size(300, 4000)):
+        k = rng.randint(1, 7)
+        toks = [rng.choice(TEST_UN + TEST_BIN + TEST_OPS + ["(", ")", "!", "-a", "-o"]) for _ in range(k)]
+        run("test_random", "test %s; [ %s ]" % (" ".join(sq(t) for t in toks), " ".join(sq(t) for t in toks)))
+    # --- seeded random compgen/complete combinations
+    for _ in range(ctx.size(600, 8000)):
+        parts = []
+        for _k in range(rng.randint(1, 4)):
+            r = rng.random()
+            if r < 0.25:
+                parts.append("-X " + sq("".join(rng.choice(X_ALPHA + ["", "[", "]", "@(", ")", "|"]) for _ in range(rng.randint(0, 5)))))
+            elif r < 0.4:
+                parts.append("-W " + sq(rng.choice(WORDLISTS)))
+            elif r < 0.5:
+                parts.append(rng.choice(["-P ", "-S "]) + sq(rng.choice(ADV_STR)))
+            elif r < 0.6:
+                parts.append("-G " + sq(rng.choice(GLOBS)))
+            elif r < 0.7:
+                parts.append("-A " + rng.choice(ACTIONS))
+            elif r < 0.8:
+                parts.append("-o " + rng.choice(COMP_OPTS))
+            elif r < 0.9:
+                parts.append("-F " + rng.choice(FUNC_NAMES))
+            else:
+                parts.append("-C " + sq(rng.choice(COMP_CMDS)))
+        w = rng.choice(X_WORDS + ["al", "\u00e9\u00e9\u00e9", "a b"])
+        if rng.random() < 0.6:
+            run("compgen_random", COMP_FUNCS + "; depth=0; shopt -s extglob; compgen %s -- %s" % (" ".join(parts), sq(w)))
+        else:
+            cs.append(("complete_random", "COMPL2", [COMP_FUNCS + "; depth=0; shopt -s extglob; complete %s mycmd" % " ".join(parts), rng.choice(COMPL_LINES)]))
+    return cs
+
+
+# ulimit / umask act on the process: through the binary
+PROCESS_BUILTIN_ARGS = ["0", "022", "777", "0777", "1000", "8", "-S", "u=rwx", "a+x", "u=rwx,g=rx", "=", "u", "\u00e9", "99999999999", "-p", "-S 022", "u=s", "-1", "",
+                        "18446744073709551615", "unlimited", "hard", "soft", "9223372036854775808", "1.5", "a"]
+
+
+def builtin_args_stage(ctx):
+    cases = builtin_cases(ctx)
+    lines = ["%s %s" % (op, " ".join(esc(f) for f in fields)) for _, op, fields in cases]
+    order = sorted(range(len(lines)), key=lambda i: i % 8)
+    outs_o = run_harness_parallel([lines[i] for i in order])
+    outs = [None] * len(lines)
+    for i, o in zip(order, outs_o):
+        outs[i] = o
+    nviol = 0
+    for (bucket, op, fields), o in zip(cases, outs):
+        ctx.count((op, tuple(fields)), bucket="builtin_" + bucket)
+        ctx.impl_validated += 1
+        if o == "SKIPPED":
+            ctx.bucket("skipped_after_too_many_harness_restarts")
+            continue
+        k, pl, loc, msg = split_resp(o)
+        text = "\n".join(fields)
+        case = {"op": op, "fields": fields, "brush": o}
+        if k in ("OK", "ERR") and "RANGE" not in pl:
+            continue
+        if o == "SETUP-ERR":
+            continue
+        if k == "PANIC":
+            # the smallest failing line of a multi-line script
+            if op in ("RUN", "RUNI") and "\n" in fields[0]:
+                pre = [l for l in fields[0].split("\n") if "() {" in l or l.startswith("shopt") or l.startswith("x=")]
+                for l in fields[0].split("\n"):
+                    r1 = run_harness(["%s %s" % (op, esc("\n".join(pre + [l]) if l not in pre else l))])[0]
+                    if r1.startswith("PANIC"):
+                        case = {"op": op, "fields": ["\n".join(pre + [l]) if l not in pre else l], "brush": r1}
+                        text = case["fields"][0]
+                        k, pl, loc, msg = split_resp(r1)
+                        break
+            cl = builtin_panic_clause(op, loc, msg, text)
+            if cl:
+                ctx.known_or_violation(cl, "%s panics at %s (%s)" % (op, loc, msg[:60]), case)
+            elif nviol < 12:
+                nviol += 1
+                ctx.violation("a builtin argument panics the shell at %s (%s)" % (loc, msg[:80]), case)
+        elif nviol < 12:
+            nviol += 1
+            ctx.violation("a builtin argument takes the shell down or hangs it: %s" % o[:80], case)
+    # ulimit / umask in the binary
+    scripts = ["umask %s; umask; umask -S\nulimit -S -c %s; ulimit -c\nulimit %s\nulimit -H -c %s\nulimit -a > /dev/null\nulimit -x %s\nulimit -S -s %s; ulimit -s" % ((a,) * 6)
+               for a in PROCESS_BUILTIN_ARGS]
+    res = lib.pmap(lambda sc: run_script(sc, timeout=10, mem_gb=3), scripts, workers=min(lib.NCPU, 8))
+    for sc, r in zip(scripts, res):
+        ctx.count(("ulimit", sc), bucket="builtin_umask_ulimit")
+        ctx.impl_validated += 1
+        if r["how"] == "panic" and re.search(r"brush-builtins/src/ulimit\.rs:", r["loc"]) and "multiply with overflow" in r["msg"]:
+            ctx.known_or_violation("ulimit_value_scale_overflow", "ulimit panics at %s (%s)" % (r["loc"], r["msg"][:60]),
+                                   {"script": sc, "brush": {k: r[k] for k in ("how", "rc", "loc", "msg")}})
+            continue
+        if r["how"] != "status" and nviol < 12:
+            nviol += 1
+            ctx.violation("umask/ulimit argument: brush does not end in a status (%s %s %s)" % (r["how"], r["loc"], r["msg"][:60]),
+                          {"script": sc, "brush": {k: r[k] for k in ("how", "rc", "loc", "msg")}})
+    if cases:
+        ctx.sample({"builtin_case": cases[len(cases) // 2][2], "brush": outs[len(cases) // 2]})
+
+
+BUILTIN_KNOWN_PANICS = [
+    # (clause, op regex, file regex, message regex, input feature regex)
+    ("printf_star_width_i64_min", r"^RUNI?$", r"^dep:uucore-[^/]*/src/lib/features/format/spec\.rs$", r"negate with overflow", r"printf\b.*\*.*-9223372036854775808"),
+    ("read_timeout_overflows_instant", r"^RUNI?$", r"^std:(std|core)/src/time\.rs$", r"overflow when adding duration to instant|cannot convert float seconds to Duration", r"\bread\b.*-t"),
+    ("caller_frame_index_overflow", r"^RUNI?$", r"brush-builtins/src/caller\.rs$", r"add with overflow", r"\bcaller\b"),
+    ("mapfile_origin_overflow", r"^RUNI?$", r"brush-builtins/src/mapfile\.rs$", r"add with overflow", r"\bmapfile\b.*-O"),
+    ("ulimit_value_scale_overflow", r"^RUNI?$", r"brush-builtins/src/ulimit\.rs$", r"multiply with overflow", r"\bulimit\b"),
+    ("fc_negative_min", r"^RUNI?$", r"brush-builtins/src/fc\.rs$", r"negate with overflow", r"\bfc\b.*-9223372036854775808"),
+    ("completion_cursor_inside_multibyte_char", r"^COMPL2B$", r"brush-core/src/completion\.rs$", r"char boundary", r"[^\x00-\x7f]"),
+]
+
+
+def builtin_panic_clause(op, loc, msg, text):
+    f = loc.rsplit(":", 1)[0]
+    for clause, ore, fre, mre, feat in BUILTIN_KNOWN_PANICS:
+        if re.search(ore, op) and re.search(fre, f) and re.search(mre, msg) and re.search(feat, text, re.S):
+            return clause
+    return panic_clause(loc, msg, text)
 
 
 # ---------------------------------------------------------------------------------------------
@@ -640,7 +935,7 @@ def mutate(rng, s):
 def nested(rng, depth):
     """one construct nested `depth` times (depth <= 64)"""
     kinds = [("$(", ")"), ("(", ")"), ("{ ", "; }"), ("$((", "))"), ("${x:-", "}"), ("\"$(", ")\""), ("`", "`"), ("if ", "; then :; fi"),
-             ("a[", "]"), ("((", "))"), ("[[ ! ", " ]]"), ("{a,", "}"), ("<(", ")"), ("@(", ")"), ("while ", "; do break; done"),
+             ("a[", "]"), ("((", "))"), ("[[ ! ", " ]]"), ("{a,", "}"), ("<(", ")"), ("@(", ")"), ("!(", ")"), ("echo +(", ")"), ("while ", "; do break; done"),
              ("f() { ", "; }"), ("case x in x) ", ";; esac"), ("eval '", "'"), ("${x/", "/y}"), ("$'", "'")]
     o, c = rng.choice(kinds)
     core = rng.choice(["echo x", "1", "x", ":", "", "$x", "\u00e9"])
@@ -1125,7 +1420,7 @@ def explore_binary(ctx):
         if r["how"] == "status":
             continue
         if r["how"] == "panic":
-            cl = panic_clause(r["loc"], r["msg"], s)
+            cl = builtin_panic_clause("RUNI" if inter else "RUN", r["loc"], r["msg"], s)
             if cl:
                 ctx.known_or_violation(cl, "brush panics at %s (%s)" % (r["loc"], r["msg"][:60]), case)
             elif nviol < 25:
@@ -1134,6 +1429,8 @@ def explore_binary(ctx):
             continue
         if r["how"] in ("timeout", "oom", "stack-overflow"):
             cl = known_hang_clause(s)
+            if cl is None:
+                cl = next((c for c, fre in RECURSION_KNOWN if re.search(fre, s, re.S)), None)
             if cl is None and unsafe_count(s):
                 cl = "brace_sequence_unbounded"
             if cl is None and RECURSIVE.search(s) and r["how"] in ("stack-overflow", "oom"):
@@ -1193,6 +1490,7 @@ def run(ctx):
     lib.sweep_tmp("vh-c01-")         # directories of harness processes that were killed by their watchdog in earlier runs
     recursion_stage(ctx)
     hot_stage(ctx)
+    builtin_args_stage(ctx)
     explore_inproc(ctx)
     explore_binary(ctx)
     ctx.cov["rule"] = (
@@ -1234,9 +1532,11 @@ def replay(ctx, rp):
         mk, mp, _, _ = split_resp(m)
         fails = 1 if (k in ("PANIC", "HANG", "DIED") or bk != mk or (bk == "OK" and bp != mp)) else 0
     elif "op" in case:
-        b = run_harness(["%s %s" % (case["op"], esc(case["text"]))])[0]
+        flds = case["fields"] if "fields" in case else [case["text"]]
+        b = run_harness(["%s %s" % (case["op"], " ".join(esc(x) for x in flds))])[0]
         print("op:    ", case["op"])
-        print("text:  ", repr(case["text"]))
+        for x in flds:
+            print("text:  ", repr(x))
         print("brush: ", b)
         k = split_resp(b)[0]
         print("property on brush:", "FAILS (%s)" % k if k in ("PANIC", "HANG", "DIED") or "RANGE" in b else "holds")
